@@ -811,6 +811,29 @@ func ruleFlushHeartbeat(c *Ctx, r *Rule) {
 		}
 	}
 	r.Ob(age, c.fnName(upd)+"|age-clause", upd.Pos(), "readiness has the clause time.Since(startTime) > timeout (a partially filled batch becomes ready by age)")
+	// the ready-status stores depend on nothing but emptiness, the size clauses and the age clause
+	for _, a := range c.fieldAccesses(pipelinePkg, "Batch", "status") {
+		if !a.write || a.fn != upd {
+			continue
+		}
+		k, isK := constInt(a.val)
+		if !isK || k == 0 {
+			continue
+		}
+		extra := ""
+		for _, cl := range c.guards(upd)[a.in.Block()] {
+			for _, l := range cl {
+				if !c.isReadinessLit(l.v) {
+					extra = c.litString(l)
+				}
+			}
+		}
+		msg := "a batch becomes ready depending only on emptiness, its size limits and its age"
+		if extra != "" {
+			msg = "readiness additionally depends on [" + extra + "]: a non-empty batch for which it does not hold is never flushed, so its events are never finalized"
+		}
+		r.Ob(extra == "", fmt.Sprintf("%s|pure-readiness|status=%d", c.fnName(upd), k), a.in.Pos(), msg)
+	}
 	// reset restarts the clock: the function re-slicing events to [:0] stores startTime = time.Now()
 	okClock := false
 	for _, a := range c.fieldAccesses(pipelinePkg, "Batch", "startTime") {
@@ -922,4 +945,58 @@ func ruleWorkerNoFillLock(c *Ctx, r *Rule) {
 		msg = "the batch worker can reach a Lock of the fill lock: " + bad + " — the filler blocks on freeBatches while holding that lock, so this deadlocks when all batches are in flight"
 	}
 	r.Ob(bad == "", c.fnName(br.worker)+"|no-fill-lock", br.worker.Pos(), msg)
+}
+
+// isReadinessLit: v mentions only len(events), the size limits/accumulators, the age clock and constants.
+func (c *Ctx) isReadinessLit(v ssa.Value) bool {
+	ok := true
+	var walk func(v ssa.Value, d int)
+	walk = func(v ssa.Value, d int) {
+		if !ok || d > 6 {
+			ok = ok && d <= 6
+			return
+		}
+		v = stripConv(v)
+		switch x := v.(type) {
+		case *ssa.Const:
+		case *ssa.BinOp:
+			walk(x.X, d+1)
+			walk(x.Y, d+1)
+		case *ssa.UnOp:
+			if x.Op == token.MUL {
+				o, f, _, isF := fieldOf(x.X)
+				if !isF || !inPkg(o, pipelinePkg) || o.Obj().Name() != "Batch" {
+					ok = false
+					return
+				}
+				switch f {
+				case "events", "eventsSize", "maxSizeCount", "maxSizeBytes", "startTime", "timeout":
+				default:
+					ok = false
+				}
+				return
+			}
+			walk(x.X, d+1)
+		case *ssa.Call:
+			if b, isB := x.Call.Value.(*ssa.Builtin); isB && b.Name() == "len" {
+				walk(x.Call.Args[0], d+1)
+				return
+			}
+			if f := x.Call.StaticCallee(); f != nil && qualName(f) == "time.Since" {
+				walk(x.Call.Args[0], d+1)
+				return
+			}
+			ok = false
+		case *ssa.Phi:
+			for _, e := range x.Edges {
+				if _, isC := e.(*ssa.Const); !isC {
+					walk(e, d+1)
+				}
+			}
+		default:
+			ok = false
+		}
+	}
+	walk(v, 0)
+	return ok
 }
